@@ -35,9 +35,9 @@ LEVEL_TEXT = ("Exploration: thousands of generated operation histories; after ea
               "must be textually identical, *_MODIFY may differ only in the named quantity, *_MIX and MIX must reproduce the "
               "inventory of the current entries, RUN_CELLS must equal USE+SAVE on twin instances restored from the RAW text, and "
               "the component list must cover every element of every entry.")
-FLOORS = {"quick": 200, "thorough": 4000}
+FLOORS = {"quick": 200, "thorough": 10000}
 SHARDS = {"quick": 8, "thorough": 16}
-BUDGET = {"quick": 300, "thorough": 1500, "replay": 1}
+BUDGET = {"quick": 600, "thorough": 4000, "replay": 1}
 
 DB = "phreeqc.dat"
 OBSERVE = "DUMP\n -all\nEND\n"
